@@ -109,7 +109,7 @@ pub fn swarm_sched(rng: &mut Rng, concurrent: bool) -> SchedCfg {
         _ => Latency::HeavyTail { rare: rng.range(20, 200), stall_ms: *rng.pick(&[1_000u64, 5_000, 30_000]) },
     };
     let latency = if !concurrent && rng.chance(1, 2) { Latency::Zero } else { latency };
-    SchedCfg { seed: rng.next(), latency, inplace_small: rng.chance(1, 2), buggify_mask: if rng.chance(1, 2) { rng.below(32) as u32 } else { 0 }, channel_cap: 1024 }
+    SchedCfg { seed: rng.next(), latency, inplace_small: rng.chance(1, 2), buggify_mask: if rng.chance(1, 2) { rng.below(32) as u32 } else { 0 }, channel_cap: 1024, preempt_jobs: false }
 }
 
 fn think(rng: &mut Rng) -> u64 {
@@ -219,9 +219,57 @@ pub fn gen_seq(property: &str, profile: &str, seed: u64) -> Plan {
         plan.store.key_len = 200;
     }
     sw.big_values = sw.rng.chance(1, 6);
+    let deep = profile.contains("deepindex");
+    if deep {
+        // hundreds of 200-byte keys per blob: the on-disk B+tree gets inner levels (fan-out ~20),
+        // version runs cross 4 KiB leaf blocks; blobs are dumped and reloaded by deletes
+        plan.store.key_len = 200;
+        plan.n_keys = 120;
+        sw.n_keys = 120;
+        plan.store.max_data_in_blob = *sw.rng.pick(&[150u64, 400, 1000]);
+        plan.store.max_blob_size = 10_000_000;
+        plan.store.deferred_min_ms = 100;
+        plan.store.deferred_max_ms = 300;
+        plan.check_each_step = false;
+        sw.big_values = false;
+    }
     let mut ops = Vec::new();
-    for _ in 0..n_ops {
-        ops.push(gen_op(&mut sw, &mix, plan.store.key_len));
+    if deep {
+        let n = sw.rng.range(200, 700) as usize;
+        for i in 0..n {
+            let uid = sw.uid();
+            // a few hot keys get long version runs, the rest are spread over the whole key space
+            let key = if sw.rng.chance(1, 5) { sw.rng.below(3) as u8 } else { sw.rng.below(120) as u8 };
+            let kind = if sw.rng.chance(1, 12) { OpKind::Delete { key, ts: sw.ts(), meta: None, only_if_presented: sw.rng.chance(1, 2) } } else { OpKind::Write { key, ts: sw.ts(), len: sw.rng.range(4, 24) as u32, meta: sw.meta() } };
+            ops.push(Op { uid, think_ms: 0, kind });
+            if i % 97 == 96 {
+                let uid = sw.uid();
+                ops.push(Op { uid, think_ms: 0, kind: match sw.rng.below(4) { 0 => OpKind::TryClose, 1 => OpKind::Idle { ms: 1_000 }, 2 => OpKind::Restart { lazy: sw.rng.chance(1, 2), damage: vec![] }, _ => OpKind::CheckNow } });
+            }
+        }
+        let uid = sw.uid();
+        ops.push(Op { uid, think_ms: 0, kind: OpKind::TryClose });
+        let uid = sw.uid();
+        ops.push(Op { uid, think_ms: 0, kind: OpKind::Idle { ms: 1_000 } });
+        let uid = sw.uid();
+        ops.push(Op { uid, think_ms: 0, kind: OpKind::CheckNow });
+        let uid = sw.uid();
+        ops.push(Op { uid, think_ms: 0, kind: OpKind::Restart { lazy: sw.rng.chance(1, 2), damage: if sw.rng.chance(1, 2) { vec![AtRest::IndexRemove { blob: 0 }] } else { vec![] } } });
+        let uid = sw.uid();
+        ops.push(Op { uid, think_ms: 0, kind: OpKind::CheckNow });
+    } else {
+        for _ in 0..n_ops {
+            let mut op = gen_op(&mut sw, &mix, plan.store.key_len);
+            if profile.contains("filter") {
+                if let OpKind::Restart { damage, .. } = &mut op.kind {
+                    // filters are read back from index files, or rebuilt when the file is gone
+                    if sw.rng.chance(1, 2) {
+                        damage.push(AtRest::IndexRemove { blob: sw.rng.below(8) as usize });
+                    }
+                }
+            }
+            ops.push(op);
+        }
     }
     let mut s = SessionPlan::sequential(ops);
     s.lazy_init = sw.rng.chance(1, 5);
